@@ -36,7 +36,8 @@ META = {
                    " Also: a census of every slot-table subscript (clamped range bounds / range facts / availability fact), window facts at the slot walk's head and in the milestone pre-pass, all-paths definition of the project end in the model builder, visited-set discipline for work lists that also grow, and a size bound on macro expansion."
                    " Round 3: divisor census (non-zero constant, or-default, repair, positivity fact, or the timing resolution which the parser must reject unless positive), raw index for the slot walk's run-away test, order of two pinned dates where a task is marked scheduled on them."
                    " Round 4: size bound fixed before the passes, slot table known to exist where it is measured, numeric attributes never stored as text through a variable id, mixed allocation list (known finding), horizon estimate guarded against overflow.",
-    "assumptions": ["the property tree (parent/children) is finite and acyclic", "for loops over finite containers terminate"],
+    "assumptions": ["the property tree (parent/children) is finite and acyclic", "for loops over finite containers terminate",
+                    "attribute values are finite, acyclic nestings of lists / tuples / dicts"],
 }
 
 # ------------------------------------------------------------------------------------------------------------------
@@ -671,8 +672,31 @@ def run(ctx: Ctx):
                 # construction of the declaration tree of the input text (nested task / report / scenario blocks)
                 decl = fn.module.rel.startswith("scriptplan/parser/") and any(w in txt + env_txt for w in ("attr", "child", "attributes"))
                 ok = (tree or decl) and not dep_edge
+                # structural recursion over a value: a function that calls itself on the ELEMENTS of its own parameter (the items of a
+                # list / tuple, the values of a dict) descends a finite nested value; depth = nesting depth of that value
+                structural = False
+                if t is fn and fn.params and len(node.args) == 1 and isinstance(node.args[0], ast.Name):
+                    prm = [p_ for p_ in fn.params if p_ not in ("self", "cls")][:1]
+                    el = node.args[0].id
+                    for x in ast.walk(fn.node):
+                        gens = x.generators if isinstance(x, (ast.ListComp, ast.SetComp, ast.DictComp, ast.GeneratorExp)) else []
+                        for gen in gens:
+                            tg = {y.id for y in ast.walk(gen.target) if isinstance(y, ast.Name)}
+                            it = norm(gen.iter)
+                            if el in tg and prm and (it == prm[0] or it in (f"{prm[0]}.items()", f"{prm[0]}.values()")) \
+                                    and any(node is y for y in ast.walk(x)):
+                                structural = True
+                        if isinstance(x, ast.For):
+                            tg = {y.id for y in ast.walk(x.target) if isinstance(y, ast.Name)}
+                            it = norm(x.iter)
+                            if el in tg and prm and (it == prm[0] or it in (f"{prm[0]}.items()", f"{prm[0]}.values()")) \
+                                    and any(node is y for y in ast.walk(x)):
+                                structural = True
+                if structural and not dep_edge:
+                    ok = True
                 ctx.ob("R11.3", f"{fn.qual} -> {t.qual}: {txt[:60]}", (fn, node), ok,
-                       "recursion descends the property / declaration tree (depth = nesting depth)" if ok else
+                       ("recursion descends the elements of its own argument (depth = nesting depth of the value)" if structural else
+                        "recursion descends the property / declaration tree (depth = nesting depth)") if ok else
                        ("recursion follows dependency edges: stack depth grows with the length of a dependency chain (RecursionError on long chains)"
                         if dep_edge else "recursive call whose argument is not derived from the property tree"),
                        key=key_of("R11.3", fn, None, f"rec {t.qual} {txt[:60]}"))
